@@ -47,10 +47,12 @@ def assembled(chk, repo, rule_surface, rule_iface, rule_love, rule_intact=None, 
     types = ('tidal', 'loading', 'free')
     pi = X.atom('pi', 'pos'); G = X.atom('Gconst', 'pos')
     n_run = 0
-    for kinds in seqs:
-        lab = ' / '.join(kinds) + ' (innermost first)'
+    # the same obligations with internal non-dimensionalisation switched on: what comes back must be the dimensional solution (a subset of the sequences)
+    nd_seqs = [k_ for k_ in seqs if len(k_) == 2 and (chk.tier != 'quick' or k_ in (('solid', 'solid'), ('liquid-static', 'solid'), ('solid', 'liquid'), ('liquid', 'solid-static')))]
+    for kinds, nondim in [(k_, False) for k_ in seqs] + [(k_, True) for k_ in nd_seqs]:
+        lab = ' / '.join(kinds) + ' (innermost first)' + (', solved non-dimensionalised' if nondim else '')
         try:
-            r = SR.run_solver(repo, kinds, types, False)
+            r = SR.run_solver(repo, kinds, types, nondim)
         except AnalysisError as ex:
             raise AnalysisError(f'whole-solver interpretation, layers {lab}: {ex}')
         n_run += 1
@@ -129,7 +131,7 @@ def assembled(chk, repo, rule_surface, rule_iface, rule_love, rule_intact=None, 
                     bad.append(f'{tn}: {nm} is not read from the surface row of its own solution type')
         if rule_love is not None: chk.ob(rule_love, f'layers {lab}: (k, h, l) of every requested type == (y5 - 1, g y1, g y3) of the top row of that type\'s assembled solution', not bad, '; '.join(bad[:4]), where,
                key=f'{rule_love}|{lab}', method='whole-function symbolic execution of cf_radial_solver + GF(p^2) PIT')
-        if rule_span is not None:
+        if rule_span is not None and not nondim:        # (the integrated solutions of a non-dimensionalised run live in other units than the returned solution)
             # in every layer the assembled vector of the components that layer carries is a linear combination of that layer's integrated solutions (same slice)
             from ..oracles import ts72
             bad = []
